@@ -50,8 +50,8 @@ type Thread struct {
 	resume chan interface{}
 	report chan Event
 	// State as seen by the harness.
-	Parked   bool   // parked at a gate, waiting for resume
-	Running  bool   // resumed and not yet reported (possibly blocked)
+	Parked   bool // parked at a gate, waiting for resume
+	Running  bool // resumed and not yet reported (possibly blocked)
 	Finished bool
 	At       string // gate name where parked
 	Payload  interface{}
@@ -63,6 +63,9 @@ type Thread struct {
 func NewSched() *Sched {
 	return &Sched{threads: map[uint64]*Thread{}}
 }
+
+// GoID returns the current goroutine id.
+func GoID() uint64 { return goid() }
 
 func goid() uint64 {
 	var buf [64]byte
